@@ -76,9 +76,12 @@ def flat_targets(n, edges, files=False):
 # ------------------------------------------------------------------------------------------ C10
 
 def c10_task(ts):
+    od = None
+    if isinstance(ts, dict):
+        ts, od = ts["targets"], ts.get("out_dir")
     s = sc.Scratch("c10cli")
     try:
-        r = sc.Repo(s, "r", ts, init_git=False, ports=False)
+        r = sc.Repo(s, "r", ts, init_git=False, ports=False, cfg_extra={"out_dir": od} if od else None)
         tm = {t["path"]: t for t in ts}
         dot = os.path.join(s.dir, "g.dot")
         with open(dot, "w") as f:   # a longer file from an earlier rendering is already there
@@ -149,7 +152,7 @@ def c10_symlink_task(_):
 
 def c10_cases(tier):
     dirs = ["a", "ab", "a/c", "a/cd", "a/c/e", "b"]
-    entries = dirs + ["lib", "a/f", "a/c/f", "b/f", "li", "x.txt"]
+    entries = dirs + ["lib", "a/f", "a/c/f", "b/f", "li", "x.txt", "a/", "a/c/", "b/"]   # (with a trailing separator: still that directory)
     out = []
     for k in (1, 2, 3):
         for tset in itertools.combinations(dirs, k):
@@ -178,6 +181,15 @@ def c10_cases(tier):
                             ts[ui]["ignores"] = [g]
                             ign.append(ts)
     out += ign[:: (7 if tier == "quick" else 1)]
+    # the output directory's name is a string prefix of a target others use, without containing it
+    out.append({"targets": [{"path": "ab"}, {"path": "b", "uses": ["ab"]}], "out_dir": "a"})
+    out.append({"targets": [{"path": "a/cd"}, {"path": "b", "uses": ["a/cd/x"]}, {"path": "a"}], "out_dir": "a/c"})
+    out.append({"targets": [{"path": "monorail-outline"}, {"path": "b", "uses": ["monorail-outline/api"]}], "out_dir": None})
+    out.append({"targets": [{"path": "build-tools"}, {"path": "app", "uses": ["build-tools"]}, {"path": "build-tools/gen"}], "out_dir": "build"})
+    # directories a target names for its commands or argmaps are not `uses` entries: no edge, wherever they point
+    out.append([{"path": "tools"}, {"path": "app", "commands": {"path": "tools/scripts"}}])
+    out.append([{"path": "tools"}, {"path": "app", "argmaps": {"path": "tools/args"}}, {"path": "lib", "uses": ["app"]}])
+    out.append([{"path": "tools"}, {"path": "app", "commands": {"path": "tools", "definitions": {"build": {"path": "tools/build-app.sh"}}}}])
     # names whose rendering as a label is easy to get wrong: precomposed and decomposed accents, a
     # zero-width joiner, CJK, a quote-free name with a backslash-like look, siblings around '/'
     odd = ["caf\u00e9", "cafe\u0301", "z\u200dw", "\u65e5\u672c", "a-b", "a.c", "caf\u00e9/sub"]
@@ -205,6 +217,9 @@ def graph_task(args):
         for t_ in ts:
             if t_.get("uses"):
                 t_["ignores"] = list(t_["uses"])
+    od = None
+    if ign == "outdir":
+        od = "t"   # an output directory whose name is a string prefix of every target (t1, t10) without containing any
     elif ign == "owner":
         for t_ in ts:
             mine = sorted({u for o in ts for u in (o.get("uses") or []) if o is not t_ and inside(u, t_["path"])})
@@ -216,7 +231,10 @@ def graph_task(args):
         return {"judged": 0, "v": []}
     s = sc.Scratch("gcli")
     try:
-        r = sc.Repo(s, "r", ts, commands={t["path"]: {"build": "x"} for t in ts}, init_git=False)
+        cfgx = {"sequences": {"noop": [], "ci": ["build"]}}
+        if od:
+            cfgx["out_dir"] = od
+        r = sc.Repo(s, "r", ts, commands={t["path"]: {"build": "x"} for t in ts}, init_git=False, cfg_extra=cfgx)
         v = []
         judged = 0
         calls = [("target show -g", ["target", "show", "-g"], lambda d: d.get("target_groups"), set(tm)),
@@ -237,7 +255,11 @@ def graph_task(args):
                     if bad:
                         v.append(("bad-layering-cli", "%s: %s (groups %s)" % (name, bad, getg(d))))
         # run: all targets, and -t X --deps for every X
-        runs = [("run -c build", ["run", "-c", "build"], set(tm))]
+        runs = [("run -c build", ["run", "-c", "build"], set(tm)), ("run -s ci", ["run", "-s", "ci"], set(tm))]
+        if cyc:
+            # a sequence without commands: there is nothing to execute, the configuration is cyclic all the same
+            runs.append(("run -s noop", ["run", "-s", "noop"], set(tm)))
+            runs.append(("run -s noop -t %s --deps" % sorted(tm)[0], ["run", "-s", "noop", "-t", sorted(tm)[0], "--deps"], closure(tm, [sorted(tm)[0]])))
         for x in tm:
             runs.append(("run -c build -t %s --deps" % x, ["run", "-c", "build", "-t", x, "--deps"], closure(tm, [x])))
             # the same selection with a runtime argument for the named target (-a needs one command, one target)
@@ -289,6 +311,25 @@ def graph_task(args):
                         bad = layering_defect(tm, set(tm), groups)
                         if bad:
                             v.append(("bad-layering-run", "%s with no target of layer %d (%s) defining `dep`: command #%d: %s (groups %s)" % (" ".join(argv), li, sorted(layer), i, bad, groups)))
+        if not cyc and len(tm) > 1:
+            # an earlier command fails: the later command is skipped as a whole, and the groups reported for it
+            # (and for the failing command itself) are still a layering of all requested targets
+            lay = (r.mr("analyze", "--target-groups").json() or {}).get("target_groups") or []
+            for t in tm:
+                r.command_file(t, "prep", "x")
+            victim = sorted(lay[0])[0] if lay else sorted(tm)[0]
+            r.set_script(victim, "prep", ["err " + b"prep fails\n".hex(), "exit 1"])
+            res = r.mr("run", "-c", "prep", "build", env=r.trace_env())
+            judged += 1
+            d = res.json()
+            if d is None or len(d.get("results") or []) != 2:
+                v.append(("no-result-document", "run -c prep build with prep failing for %s: exit %s %s" % (victim, res.code, res.err[:200])))
+            else:
+                for i in (0, 1):
+                    groups = [list(g) for g in d["results"][i]["target_groups"]]
+                    bad = layering_defect(tm, set(tm), groups)
+                    if bad:
+                        v.append(("bad-layering-run", "run -c prep build with prep failing for %s: command #%d (%s): %s (groups %s)" % (victim, i, "skipped as a whole" if i else "the failing one", bad, groups)))
         return {"judged": judged, "v": [(sig, d, {"cli_graph": {"n": n, "edges": edges, "files": files, "ign": ign}}) for sig, d in v]}
     finally:
         s.cleanup()
@@ -383,17 +424,19 @@ def acyc_ckpt_task(args):
             bad = layering_defect(tm, want, d.get("target_groups") or [])
             if bad:
                 v.append(("bad-layering-cli", "checkpoint, %s touched: %s (groups %s)" % (touched, bad, d.get("target_groups"))))
-            r.clear_traces()
-            rr = r.mr("run", "-c", "build", env=r.trace_env())
-            rd = rr.json()
-            judged += 1
-            if rr.code != 0 or rd is None:
-                v.append(("acyclic-rejected-by-run", "run with a checkpoint and %s touched: exit %s %s" % (touched, rr.code, rr.err[:200])))
-            else:
-                groups = [list(g) for g in rd["results"][0]["target_groups"]]
-                bad = layering_defect(tm, want, groups)
-                if bad:
-                    v.append(("bad-layering-run", "checkpoint, %s touched: %s (groups %s)" % (touched, bad, groups)))
+            # (--deps without -t adds nothing: the requested targets are still the changed ones)
+            for extra in ([], ["--deps"]):
+                r.clear_traces()
+                rr = r.mr("run", "-c", "build", *extra, env=r.trace_env())
+                rd = rr.json()
+                judged += 1
+                if rr.code != 0 or rd is None:
+                    v.append(("acyclic-rejected-by-run", "run %s with a checkpoint and %s touched: exit %s %s" % (" ".join(extra), touched, rr.code, rr.err[:200])))
+                else:
+                    groups = [list(g) for g in rd["results"][0]["target_groups"]]
+                    bad = layering_defect(tm, want, groups)
+                    if bad:
+                        v.append(("bad-layering-run", "run -c build %s, checkpoint, %s touched: %s (groups %s)" % (" ".join(extra), touched, bad, groups)))
         return {"judged": judged, "v": [(sig, d, {"cli_acyc_ckpt": [n, edges, prior]}) for sig, d in v]}
     finally:
         s.cleanup()
@@ -493,6 +536,7 @@ def graph_cases(prop, tier):
             if edges and (tier != "quick" or len(edges) <= 2):
                 out.append((prop, n, edges, True))
             if edges and (tier != "quick" or len(edges) <= 3):
+                out.append((prop, n, edges, False, "outdir"))
                 out.append((prop, n, edges, False, "self"))
                 out.append((prop, n, edges, True, "owner"))
                 if tier != "quick":
@@ -527,16 +571,29 @@ CHANGES = ["a/f", "a/fa", "ab/f", "a/c/f", "a/c/fa", "a/cd/f", "a/c/e/f", "b/f",
 
 
 def c01_task(ts):
+    # {"targets": ts, "out_dir": od}: the same with a configured output directory whose NAME is a string
+    # prefix of targets, uses entries and changed paths without containing them (`li` next to lib, lib2, lib/x)
+    od = None
+    if isinstance(ts, dict):
+        ts, od = ts["targets"], ts.get("out_dir")
     tm = {t["path"]: t for t in ts}
     if has_cycle(tm):
         return {"judged": 0, "v": []}
     s = sc.Scratch("c01cli")
     try:
-        r = sc.Repo(s, "r", ts)
+        r = sc.Repo(s, "r", ts, cfg_extra={"out_dir": od} if od else None, files={".gitignore": "monorail-out\n/%s/\n" % od} if od else None)
         if r.mr("checkpoint", "update").code != 0:
             raise common.EngineError("checkpoint update failed")
         for c in CHANGES:
             r.write(c, "changed\n")
+        # every target's committed f.txt is rewritten with the bytes it already has and gets another modification
+        # time (git's cached stat data is stale, the content is not changed): these are not changes
+        for t_ in ts:
+            fp = r.path(os.path.join(t_["path"], "f.txt"))
+            data = open(fp, "rb").read()
+            with open(fp, "wb") as fh:
+                fh.write(data)
+            os.utime(fp, (1_000_000_000, 1_000_000_000))
         res = r.mr("analyze", "--all")
         d = res.json()
         v = []
@@ -581,7 +638,7 @@ def c01_task(ts):
                 if d3 is None or d3.get("targets") != d["targets"] or sorted(c["path"] for c in d3.get("changes") or []) != sorted(CHANGES):
                     v.append(("cli-pending-then-changed-again", "every changed path was recorded as pending and then changed again (old mtime): targets %s, changes %s; before: targets %s" % (
                         d3 and d3.get("targets"), d3 and [c["path"] for c in d3.get("changes") or []], d["targets"])))
-        return {"judged": 1, "v": [(sig, dd, {"cli_config": {"targets": ts}}) for sig, dd in v]}
+        return {"judged": 1, "v": [(sig, dd, {"cli_config": {"targets": ts, "out_dir": od}}) for sig, dd in v]}
     finally:
         s.cleanup()
 
@@ -602,7 +659,10 @@ def c01_cases(tier):
                             out.append(ts)
     limit = 200 if tier == "quick" else 3000
     step = max(1, len(out) // limit)
-    return out[::step][:limit]
+    out = out[::step][:limit]
+    # every fourth case with an output directory named `li`, every fourth with one named `a/c/ge` (inside a target,
+    # next to the uses entry a/c/gen)
+    return [{"targets": ts, "out_dir": "li"} if i % 4 == 1 else {"targets": ts, "out_dir": "a/c/ge"} if i % 4 == 3 else ts for i, ts in enumerate(out)]
 
 
 # ------------------------------------------------------------------------------------------ driver
